@@ -24,7 +24,7 @@ func selAB(tblName string, w *N, rest ...*N) *N {
 // buildPool returns the pool; the quick tier uses the first quickPoolSize statements. The pool is
 // made of families of near twins (one value / column / table / list length / clause apart) so that
 // every derived rule has both matching and non-matching statements.
-const quickPoolSize = 25
+const quickPoolSize = 27
 
 func buildPool(thorough bool) []*stmtT {
 	eq := func(c string, v *N) *N { return cmp("=", col(c), v) }
@@ -69,6 +69,9 @@ func buildPool(thorough bool) []*stmtT {
 		mk("upd-1", update(tbl("t1"), sets(set("b", sval("x"))), where(eq("a", ival("1"))))),
 		mk("upd-2", update(tbl("t1"), sets(set("b", sval("y"))), where(eq("a", ival("2"))))),
 		mk("del-1", del(tbl("t1"), where(eq("a", ival("1"))))),
+		// --- the table written with its schema / database qualifier (twins of sel-eq-1 and ins-1)
+		mk("sel-qualified-table", sel(cols(col("a"), col("b")), from(stbl("s1", "t1")), where(cmp("=", col("a"), ival("1"))))),
+		mk("ins-qualified-table", insert(stbl("s1", "t1"), icols("a", "b"), rows(row(ival("1"), sval("x"))))),
 	}
 	if len(p) != quickPoolSize {
 		panic("quick pool size")
@@ -112,6 +115,19 @@ func buildPool(thorough bool) []*stmtT {
 		mk("sel-lit-col", sel(cols(col("a"), ival("7")), from(tbl("t1")), where(eq("a", ival("1"))))),
 		mk("sel-derived", sel(cols(qcol("d", "a")), from(nd("dtbl", "d", subq(selAB("t2", eq("a", ival("1")))))), where(cmp(">", qcol("d", "a"), ival("0"))))),
 		mk("sel-order-only", selAB("t1", eq("a", ival("1")), order(ob(col("b"), "desc")))),
+		// (the literal carries a statement separator: a ';' inside a literal does not end the statement)
+		mk("sel-eq-str-semi", selAB("t1", eq("c", sval("x; delete from t2")))),
+		// --- more spellings of a qualified table: another schema, quoted, join operand, REPLACE and
+		// INSERT...SELECT targets, the other table of the pool
+		mk("sel-other-schema-table", sel(cols(col("a"), col("b")), from(stbl("s2", "t1")), where(cmp("=", col("a"), ival("1"))))),
+		mk("sel-qualified-quoted-table", sel(cols(col("a"), col("b")), from(sqtbl("s1", "t1")), where(cmp("=", col("a"), ival("1"))))),
+		mk("sel-join-qualified-table", sel(cols(qcol("t1", "a"), qcol("t2", "b")),
+			from(join("join", stbl("s1", "t1"), tbl("t2"), cmp("=", qcol("t1", "a"), qcol("t2", "a")))),
+			where(cmp(">", qcol("t2", "b"), ival("5"))))),
+		mk("ins-qualified-quoted-table", insert(sqtbl("s1", "t1"), icols("a", "b"), rows(row(ival("1"), sval("x"))))),
+		mk("ins-replace-qualified-table", replace(stbl("s1", "t1"), icols("a", "b"), rows(row(ival("1"), sval("x"))))),
+		mk("ins-select-qualified-table", insert(stbl("s1", "t2"), icols("a", "b"), selAB("t1", eq("a", ival("1"))))),
+		mk("ins-t2-qualified-table", insert(stbl("s1", "t2"), icols("a", "b"), rows(row(ival("1"), sval("x"))))),
 	)
 	return p
 }
